@@ -132,11 +132,17 @@ def run_obligations(pid, W, tier, config):
 
 
 # Whole-crate inventories (call / expression / vocabulary / state / error-exit / cast / trait-impl / must-call / removal tables) are shared by many properties.
-# A finding of such an inventory concerns one function; it is reported under a property only if that property is anchored in the function (tables/scope.json:
-# the functions the property's anchors name, and their direct callees) -- or, for a function no property names, if the function's file is among the
-# property's anchor files.  Everywhere else it is kept as an informational instance.  Round 12: one benign edit in a checksum helper raised the same
+# A finding of such an inventory concerns one function; it is reported under a property only if the property is anchored in that function (tables/scope.json:
+# the functions its anchors name, their direct callees, the functions its own semantic rules look up) or if the function's file is one of the property's anchor
+# files (properties.jsonl).  Everywhere else it is kept as an informational instance.  (VERIF_SCOPE=fn narrows this to the functions alone: measured in round 12,
+# it loses 4 of 216 seeded changes whose authors broke their property through a function only its file anchors.)  Round 12: one benign edit in a checksum helper raised the same
 # inventory finding under fourteen properties.
 INVENTORY_CLASSES = set('KAVSECPMR')
+# Frozen-fragment inventories: the pinned expressions (Cxx.A) and the condition vocabulary of pinned helpers (Cxx.V) compare today's spelling of an expression /
+# the set of terms a helper branches on with the reviewed one.  Round 12 (independent behaviour-preserving refactorings) showed them firing on 7 resp. 6 of 18
+# refactorings -- a hoisted read, a byte count in a trace line, a condition moved into a helper.  A rule that fires on an edit that leaves behaviour unchanged must not
+# raise an alarm: their findings are printed as `REVIEW:` lines and recorded in the evidence, they never produce a VIOLATION line or a non-zero exit.
+ADVISORY_CLASSES = set('AV')
 _SCOPE = None
 
 
@@ -144,6 +150,11 @@ def _scope_filter(pid, ob):
     global _SCOPE
     cls = ob.id.split('.')[-1]
     if not (len(cls) == 1 and cls in INVENTORY_CLASSES):
+        return
+    if cls in ADVISORY_CLASSES:
+        for i in ob.instances:
+            if i['status'] in ('violated', 'anchor-missing'):
+                i['status'] = 'advisory'
         return
     if _SCOPE is None:
         try:
@@ -164,6 +175,8 @@ def _scope_filter(pid, ob):
         names = set(re.findall(r'[A-Za-z_][A-Za-z0-9_]*::[A-Za-z_][A-Za-z0-9_]*', i['key']))
         names = {n for n in names if n in _SCOPE.get('fn_file', {})}
         if not names or names & mine:
+            continue
+        if os.environ.get('VERIF_SCOPE') != 'fn' and any(_SCOPE['fn_file'].get(n) in files for n in names):
             continue
         if not (names & owned) and any(_SCOPE['fn_file'].get(n) in files for n in names):
             continue
@@ -214,6 +227,11 @@ def check_property(pid, tier='quick', repo='/repo', write=True, quiet=False, con
         for f in os.listdir(vdir):
             if f.startswith(pid + '-'):
                 os.remove(os.path.join(vdir, f))
+    for config, ob in all_obs:
+        if config == configs[0]:
+            for i in ob.instances:
+                if i['status'] == 'advisory':
+                    lines.append('REVIEW: property=%s %s (advisory, not an alarm): %s' % (pid, ob.id, i['what'][:300]))
     for config, ob, v, k in known_hits:
         lines.append('KNOWN-FINDING: property=%s %s [%s] %s' % (pid, v['key'], k.get('id', ''), v['what']))
     for n, (config, ob, v) in enumerate(violations):
@@ -255,6 +273,8 @@ def check_property(pid, tier='quick', repo='/repo', write=True, quiet=False, con
                               'tables/ reviewed instance tables'],
                 not_decided=getattr(mod, 'NOT_DECIDED', []),
                 samples=samples,
+                advisory_findings=[dict(obligation=ob.id, what=i['what'][:300]) for c, ob in all_obs if c == configs[0] for i in ob.instances if i['status'] == 'advisory'],
+                advisory_classes='Cxx.A (pinned expressions) and Cxx.V (condition vocabulary) are advisory: REVIEW lines, never an alarm (DESIGN 9.17)',
                 fact_extraction={c: i for c, i in infos.items()},
                 **({'kill_matrix': kill_matrix} if kill_matrix is not None else {}),
             ),
